@@ -307,8 +307,8 @@ Definition mig_ok (c : case_C20) : bool :=
             | LV1 c0 =>
                 if Z.ltb v 0 then true else
                 let w := match cws c0 with Some w => w | None => s_workspace end in
-                (* custom = the configured directory is another PLACE than <root>/workspace (not: another
-                   spelling; the code compares strings - known finding 2) *)
+                (* custom = the configured directory is another PLACE than <root>/workspace, not another
+                   spelling of it ("./workspace", "workspace/" are the default) *)
                 let custom := negb (list_eqb str_eqb (wcomps w) [s_workspace]) in
                 let name := match cproj c0 with Some n => n | None => s_None end in
                 if custom && match get pre [s_workspace] with Some _ => true | None => false end then
@@ -371,43 +371,6 @@ Definition violation_C20 (c : case_C20) : bool := negb (holds_C20 c).
 
 Definition mismatches_C20 (cs : list case_C20) : list N := indices_where mismatch_C20 cs.
 Definition violations_C20 (cs : list case_C20) : list N := indices_where violation_C20 cs.
-
-(* ------------------------------------------------------------------ known finding, classified on the INPUT
-   tag 2: a migratable legacy project (signac.rc, declared version 0 or 1) whose workspace_dir is a
-   SPELLING of the default that is not the string "workspace" ("./workspace", "workspace/") and whose
-   workspace directory exists: _migrate_v1_to_v2 compares the string, takes the directory for a custom
-   one and refuses with "workspace already exists" - a collision of the workspace with itself. *)
-Definition classify_C20 (c : case_C20) : N :=
-  match proj_phys c with
-  | None => 0
-  | Some ph =>
-      match get (c20_tree c) (skipn (List.length (base_comps (c20_base c))) ph) with
-      | Some pre =>
-          match layout_of pre with
-          | LV1 c0 =>
-              match declared (LV1 c0), cws c0 with
-              | Some v, Some w =>
-                  if Z.leb 0 v && Z.ltb v SCHEMA
-                     && negb (str_eqb w s_workspace) && list_eqb str_eqb (wcomps w) [s_workspace]
-                     && match get pre [s_workspace] with Some _ => true | None => false end
-                  then 2 else 0
-              | _, _ => 0
-              end
-          | _ => 0
-          end
-      | None => 0
-      end
-  end%N.
-
-Fixpoint known_aux (cs : list case_C20) (i : N) : list N :=
-  match cs with
-  | [] => []
-  | k :: cs' => match classify_C20 k with
-                | 0%N => known_aux cs' (N.succ i)
-                | t => (i * 100 + t)%N :: known_aux cs' (N.succ i)
-                end
-  end.
-Definition known_C20 (cs : list case_C20) : list N := known_aux cs 0%N.
 
 (* debugging aids *)
 Definition bad_gates (c : case_C20) : list N := indices_where (fun g => negb (agree_g c g)) (c20_gate c).
